@@ -133,6 +133,8 @@ def h12_consume_broker(S, backend="redis"):
     if delayed:
         S.assume(due >= ts)
         S.tag("origin", "delayed")
+    # ... and be one run of a recurring job (a missed, expired run ends as a dead letter like any other message)
+    recurring = delayed and S.flag("recurring")
 
     # RabbitMQ only: a live message may be in front of it, so that it waits in the consumer's local buffer first
     ahead = backend == "rabbit" and S.flag("a_live_message_ahead_in_the_buffer")
@@ -140,7 +142,8 @@ def h12_consume_broker(S, backend="redis"):
     async def main(loop):
         key = RoutingKey(topic="job", queue="default", id_="m1", priority=prio)
         params = P.Parameters(timestamp=S.datetime_us(ts), ttl=S.timedelta_us(ttl) if has_ttl else None,
-                              delay=P.DelayProperties(next_execution_time=S.datetime_us(due)) if delayed else P.DelayProperties())
+                              delay=P.DelayProperties(next_execution_time=S.datetime_us(due), defer_by=real_timedelta(hours=1) if recurring else None)
+                              if delayed else P.DelayProperties())
         if backend == "redis":
             from fakes import redis as fr
             srv = fr.FakeServer(clock=lambda: clock.time())
